@@ -130,6 +130,15 @@ impl<'a> Attribute<'a> {
         match self.value.as_ref() {
             b"1" | b"true" => Some(true),
             b"0" | b"false" => Some(false),
+            // The value can be written with character references
+            v if v.contains(&b'&') => {
+                let raw = std::str::from_utf8(v).ok()?;
+                match crate::escape::unescape(raw).ok()?.as_ref() {
+                    "1" | "true" => Some(true),
+                    "0" | "false" => Some(false),
+                    _ => None,
+                }
+            }
             _ => None,
         }
     }
